@@ -78,6 +78,10 @@ add("negexp", F("-2.5e-07"), [one("-2.5e-07")], "full")
 add("posexp", F("2.5e-07"), [one("2.5e-07"), one("0.00000025")], "core")
 add("bigexp", F("1.5e+16"), [one("1.5e+16"), one("15000000000000000.0")], "full")
 add("intexp", F("1e+22"), [one("1e+22"), one("1e22")], "full")
+# a float and an integer of the same magnitude where repr switches to exponent notation: different values, different canonical texts
+add("f1e16", F("1e+16"), [one("1e+16"), one("1e16"), one("10000000000000000.0")], "full")
+add("i1e16", I("10000000000000000"), [one("10000000000000000")], "full")
+add("f17", F("0.30000000000000004"), [one("0.30000000000000004")], "full")        # needs all 17 significant digits
 # literals that overflow a double are read as infinities; the canonical spelling must read back as the same float
 add("finf", F("inf"), [one("1e999"), one("1e400"), one("2.5E+308")], "full")
 add("fninf", F("-inf"), [one("-1e999"), one("-1e400")], "full")
